@@ -231,6 +231,22 @@ func VerifC01TwoBranches() {
 	c01Check(g, 0, vchoose("stream", 2) == 1)
 }
 
+// a successor named twice for one completion (a plain edge and a branch, or two branches) next to further plain-edge
+// successors declared before or after it: every successor receives the value exactly once
+func VerifC01EdgeBranchDup() {
+	g := &vG{nodes: []string{"x", "t", "u", "v"}, edges: [][2]string{{START, "x"}, {"t", END}, {"u", END}, {"v", END}},
+		branches: []vBranch{{"x", []string{"t", "v"}}}}
+	if vchoose("order", 2) == 0 {
+		g.edges = append(g.edges, [2]string{"x", "t"}, [2]string{"x", "u"})
+	} else {
+		g.edges = append(g.edges, [2]string{"x", "u"}, [2]string{"x", "t"})
+	}
+	if vchoose("second", 2) == 1 {
+		g.branches = append(g.branches, vBranch{"x", []string{"t", "u"}})
+	}
+	c01Check(g, 0, vchoose("stream", 2) == 1)
+}
+
 func VerifC01Cycle() {
 	// START->a->b ; b -(branch)-> a | END  with a symbolic step limit
 	g := &vG{nodes: []string{"a", "b"}, edges: [][2]string{{START, "a"}, {"a", "b"}},
@@ -439,6 +455,14 @@ func c01MultiChoice(dag bool) {
 		_ = g.AddEdge(t, END)
 		ends[t] = true
 	}
+	// all-predecessor mode only: an independent route START -> e -> END, so that the run goes on when the branch
+	// selects nothing
+	extra := dag && vchoose("extra", 2) == 1
+	if extra {
+		_ = g.AddLambdaNode("e", node("e"))
+		_ = g.AddEdge(START, "e")
+		_ = g.AddEdge("e", END)
+	}
 	answer := func() map[string]bool {
 		m := map[string]bool{}
 		for _, t := range targets {
@@ -479,13 +503,16 @@ func c01MultiChoice(dag bool) {
 	} else {
 		out, rerr = r.Invoke(ctx, in)
 	}
-	if nTrue == 0 {
+	if nTrue == 0 && !extra {
 		vassert(rerr != nil, "a multi-choice branch that selects nothing leaves END without a value: the run fails")
 		return
 	}
-	vassert(rerr == nil, "run succeeds")
+	vassert(rerr == nil, "run succeeds (a branch that selects nothing skips its targets; the rest of the graph goes on)")
 	av := map[string]any{"a": vsymUF("f_a", vFold(in))}
 	want := map[string]any{}
+	if extra {
+		want["e"] = vsymUF("f_e", vFold(in))
+	}
 	for _, t := range targets {
 		if sel[t] == 1 {
 			want[t] = vsymUF("f_"+t, vFold(av))
@@ -498,3 +525,42 @@ func c01MultiChoice(dag bool) {
 }
 
 func VerifC01MultiChoice() { c01MultiChoice(false) }
+
+// The caller's array-backed input stream of n chunks handed on by a pass-through meets the stream of a streaming node
+// in a fan-in: the run returns (it neither hangs nor fails), whatever n is, with every chunk's key in the result.
+func VerifC01FanInArrayStream() {
+	ctx := context.Background()
+	vcfg("fifo", 1)
+	vcfg("selectfirst", 1)
+	n := vrange("chunks", 1, 8)
+	g := NewGraph[map[string]any, map[string]any]()
+	_ = g.AddPassthroughNode("p")
+	_ = g.AddLambdaNode("a", StreamableLambda(func(ctx context.Context, in map[string]any) (*schema.StreamReader[map[string]any], error) {
+		sr, sw := schema.Pipe[map[string]any](0)
+		go func() {
+			sw.Send(map[string]any{"a1": 1}, nil)
+			sw.Send(map[string]any{"a2": 2}, nil)
+			sw.Close()
+		}()
+		return sr, nil
+	}))
+	_ = g.AddLambdaNode("n", InvokableLambda(func(ctx context.Context, in map[string]any) (map[string]any, error) {
+		return map[string]any{"count": len(in)}, nil
+	}))
+	_ = g.AddEdge(START, "p")
+	_ = g.AddEdge(START, "a")
+	_ = g.AddEdge("p", "n")
+	_ = g.AddEdge("a", "n")
+	_ = g.AddEdge("n", END)
+	r, err := g.Compile(ctx)
+	vassert(err == nil, "graph compiles")
+	var chunks []map[string]any
+	for i := 0; i < n; i++ {
+		chunks = append(chunks, map[string]any{[]string{"k0", "k1", "k2", "k3", "k4", "k5", "k6", "k7"}[i]: i})
+	}
+	sr, err := r.Transform(ctx, schema.StreamReaderFromArray(chunks))
+	vassert(err == nil, "the run starts")
+	out, rerr := vDrainMap(sr)
+	vassert(rerr == nil, "the run returns")
+	vassert(out["count"] == n+2, "the fan-in node receives every chunk of both predecessors")
+}
